@@ -48,8 +48,14 @@ CLASSES = ('after_ei', 'in_halt', 'after_prefix', 'in_block', 'before_frame_cros
 def gen(rng, tier, index):
     machine = rng.choice(('48K', '48K', '128K', '128K', '+2'))
     interrupts = rng.random() < 0.9
-    prog = gen_prog.gen_program(rng, machine, interrupts=interrupts)
+    cmio = rng.random() < 0.4
+    prog = gen_prog.gen_program(rng, machine, style='io' if cmio and rng.random() < 0.4 else None, interrupts=interrupts)
     n = prng.log_uniform(rng, 2, 1500 if tier == 'quick' else 4096)
+    if cmio and rng.random() < 0.5:
+        # under --cmio the uninterrupted run's clock is absolute while a resumed run starts again below one frame:
+        # start in a later frame, inside the display area, so that contended accesses follow the split
+        frame = 69888 if machine == '48K' else 70908
+        prog['state']['tstates'] = frame * rng.choice((1, 2, 3, rng.randrange(1, 200))) + rng.randrange(14000, 57000)
     if rng.random() < 0.5:
         n = min(n, rng.randrange(2, 300))
     if prog['state']['tstates'] >= (1 << 24) - 200000 and rng.random() < 0.5:
@@ -63,7 +69,7 @@ def gen(rng, tier, index):
     start_fmt = rng.choice(('szx', 'z80', 'szx', 'z80', 'bin', 'sna')) if machine == '48K' else rng.choice(('szx', 'z80'))
     scn = {
         'kind': 'crash-resume', 'machine': machine, 'prog': prog, 'start_fmt': start_fmt,
-        'python': rng.random() < 0.4, 'cmio': rng.random() < 0.4, 'interrupts': interrupts,
+        'python': rng.random() < 0.4, 'cmio': cmio, 'interrupts': interrupts,
         'N': n, 'crash_spec': spec, 'mode': 'stop' if rng.random() < 0.2 else 'ops',
     }
     if index % 16 == 7:
